@@ -219,11 +219,11 @@ def run_sticky(case, with_log=True, limit=20.0):
         return res
     except NonTermination:
         # On a heavily loaded (virtualised) machine the CPU-time timer has fired on inputs that take a millisecond when
-        # run again: the case is decided by a second run with a limit of 300 s before it is reported
-        if limit < 100.0:
+        # run again: the case is decided by a second run with a limit of 60 s before it is reported
+        if limit < 50.0:
             LOG = None
-            return run_sticky(case, with_log, limit=300.0)
-        res = {"exc": "NonTermination: assign() still running after 20 s and, run again, after 300 s of CPU time"}
+            return run_sticky(case, with_log, limit=60.0)
+        res = {"exc": "NonTermination: assign() still running after 20 s and, run again, after 60 s of CPU time"}
         return res
     except Exception as e:  # noqa: BLE001
         res = {"exc": f"{type(e).__name__}: {e!r}"[:300]}
